@@ -634,6 +634,9 @@ class Exec:
         m = re.fullmatch(r'(.+)\[(_\d+)\]', t)
         if m:
             return ('index', s.parse_place(m.group(1)), m.group(2))
+        m = re.fullmatch(r'(.+)\[(-?)(\d+) of (\d+)\]', t)      # slice pattern element: constant index from the start / from the end
+        if m:
+            return ('cindex', s.parse_place(m.group(1)), int(m.group(3)), m.group(2) == '-')
         raise NotImplementedError('place ' + t)
 
     @staticmethod
@@ -676,6 +679,19 @@ class Exec:
             return (cell, path + (pl[2],))
         if k == 'downcast':
             return s.resolve(st, fr, pl[1])
+        if k == 'cindex':
+            cell, path = s.resolve(st, fr, pl[1])
+            base = path if cell == 'val' else st.get(cell, path)
+            if isinstance(base, ArrRef):
+                base = with_prov(Slice(base.arr, bv(0), base.arr.len), base.prov)
+            if not isinstance(base, Slice):
+                raise NotImplementedError('constant index projection on ' + type(base).__name__)
+            step = base.stride if base.stride is not None else bv(1)
+            off = bv(pl[2]) * step
+            pos = (base.end - off) if pl[3] else (base.start + off)
+            s.require(st, ULT(off, (base.end - base.start) + (step if pl[3] else bv(0))) if not pl[3] else ULE(off, base.end - base.start), 'slice pattern index out of bounds', 'index')
+            cast = ('*const GenericArray<T, N>' if base.stride is not None else None)
+            return ('val', with_prov(ElemPtr(base.arr, pos, cast=cast), base.prov))
         if k == 'index':      # slice[i] (the bounds check is a separate `assert` terminator in the MIR)
             cell, path = s.resolve(st, fr, pl[1])
             base = path if cell == 'val' else st.get(cell, path)
@@ -699,7 +715,7 @@ class Exec:
             except NotImplementedError:
                 return None
             return getattr(v, 'prov', None) if isinstance(v, _Ptr) else ('mut' if isinstance(v, (BoxVal, BlockPtr)) else None)
-        if k in ('field', 'downcast', 'index'):
+        if k in ('field', 'downcast', 'index', 'cindex'):
             return s.place_prov(st, fr, pl[1])
         return None
 
